@@ -39,7 +39,9 @@ def cfg(limit, cap):
 def rand_case_state(rng, safe):
     st = stepgen.rand_state(rng, safe, safe, maxdepth=3)
     st["exec"] = proggen.rand_program(rng, safe, 30)
-    st["cfg"] = cfg(rng.choice([30, 60, 100, 300]), rng.choice([8, 500]))
+    # step limits <= 30: a structure-doubling loop (EXEC.Y ( CODE.DUP CODE.LIST )) stays below 2^15 points
+    # (the resource envelope itself is C15's subject; C02 runs the longer limits)
+    st["cfg"] = cfg(rng.choice([10, 20, 30]), rng.choice([8, 500]))
     return state(**stepgen.tame_ints(st))
 
 
@@ -87,7 +89,7 @@ def streams(seed, tier):
     modelled, safe = names()
     out = []
     # (1) the same RAND-free, id-free case: repeated, after unrelated runs, on T threads, both profiles
-    nprog = {"quick": 40, "thorough": 300, "search": 100}[tier]
+    nprog = {"quick": 40, "thorough": 800, "search": 100}[tier]
     cases, cases_after = [], []
     for k in range(nprog):
         st = rand_case_state(rng, safe)
@@ -116,7 +118,7 @@ def streams(seed, tier):
                       "T threads x K node creations (Graph::add_node and GRAPH.NODE*ADD), T x K up to 1.6e6 (thorough 1.6e7): ids pairwise distinct, "
                       "each thread's ids increasing"))
     # (3) the pushr binary against the library, programs that terminate in the model
-    ncli = {"quick": 40, "thorough": 500, "search": 150}[tier]
+    ncli = {"quick": 40, "thorough": 1200, "search": 150}[tier]
     texts = list(CLI_FIXED) + [rand_cli_text(rng, rng.randrange(2, 14)) for _ in range(ncli)]
     probe = vcheck.run_model(["thr.cli " + cli_case(0, t) for t in texts])
     keep = [t for t, r in zip(texts, probe) if r.startswith("(0 ") and r.endswith(" 0))")]
